@@ -4,6 +4,7 @@
 -/
 import RedkaModel.Model.Run
 import RedkaModel.Model.Views
+import RedkaModel.Model.Conv
 
 namespace Redka.Proto
 
@@ -89,6 +90,27 @@ def pDyadic : P Dyadic := do
   match parseDyadic t with
   | .ok d => pure d
   | .error e => throw e
+
+/-- a value argument of the Go API: hex bytes (given as `string` or `[]byte`), or a typed literal
+`i:<n>` (Go `int`), `t:0|1` (`bool`), `f:<m>p<e>` (`float64`), turned into the stored bytes by the
+model of `core.ToBytes` -/
+def pValueArg : P Bytes := do
+  let t ← tok
+  if t.startsWith "i:" then
+    match (t.drop 2).toString.toInt? with
+    | some n => pure (Conv.toBytes (.int n))
+    | none => throw s!"bad int literal {t}"
+  else if t == "t:1" then pure (Conv.toBytes (.bool true))
+  else if t == "t:0" then pure (Conv.toBytes (.bool false))
+  else if t.startsWith "f:" then
+    match parseDyadic (t.drop 2).toString with
+    | .ok d => match Conv.argBytes (.float d) with
+      | some b => pure b
+      | none => throw s!"float literal outside the modelled domain {t}"
+    | .error e => throw e
+  else match parseBytes t with
+    | .ok b => pure b
+    | .error e => throw e
 
 def pScore : P Score := do
   let t ← tok
@@ -201,7 +223,7 @@ def pOp : P Op := do
   | "str.GetMany" => return .strGetMany (← pMany pBytes)
   | "str.Incr" => return .strIncr (← pBytes) (← pInt)
   | "str.IncrFloat" => return .strIncrFloat (← pBytes) (← pDyadic)
-  | "str.Set" => return .strSet (← pBytes) (← pBytes)
+  | "str.Set" => return .strSet (← pBytes) (← pValueArg)
   | "str.SetExpires" => return .strSetExpires (← pBytes) (← pBytes) (← pInt)
   | "str.SetMany" => return .strSetMany (← pPairs)
   | "str.SetWith" => do
@@ -233,12 +255,12 @@ def pOp : P Op := do
   | "list.PopBack" => return .listPopBack (← pBytes)
   | "list.PopBackPushFront" => return .listPopBackPushFront (← pBytes) (← pBytes)
   | "list.PopFront" => return .listPopFront (← pBytes)
-  | "list.PushBack" => return .listPushBack (← pBytes) (← pBytes)
-  | "list.PushFront" => return .listPushFront (← pBytes) (← pBytes)
+  | "list.PushBack" => return .listPushBack (← pBytes) (← pValueArg)
+  | "list.PushFront" => return .listPushFront (← pBytes) (← pValueArg)
   | "list.Range" => return .listRange (← pBytes) (← pInt) (← pInt)
   | "list.Set" => return .listSet (← pBytes) (← pInt) (← pBytes)
   | "list.Trim" => return .listTrim (← pBytes) (← pInt) (← pInt)
-  | "set.Add" => return .setAdd (← pBytes) (← pMany pBytes)
+  | "set.Add" => return .setAdd (← pBytes) (← pMany pValueArg)
   | "set.Delete" => return .setDelete (← pBytes) (← pMany pBytes)
   | "set.Diff" => return .setDiff (← pMany pBytes)
   | "set.DiffStore" => return .setDiffStore (← pBytes) (← pMany pBytes)
@@ -263,7 +285,7 @@ def pOp : P Op := do
   | "hash.Items" => return .hashItems (← pBytes)
   | "hash.Len" => return .hashLen (← pBytes)
   | "hash.Scan" => return .hashScan (← pBytes) (← pInt) (← pBytes) (← pInt)
-  | "hash.Set" => return .hashSet (← pBytes) (← pBytes) (← pBytes)
+  | "hash.Set" => return .hashSet (← pBytes) (← pBytes) (← pValueArg)
   | "hash.SetMany" => return .hashSetMany (← pBytes) (← pPairs)
   | "hash.SetNotExists" => return .hashSetNotExists (← pBytes) (← pBytes) (← pBytes)
   | "hash.Values" => return .hashValues (← pBytes)
